@@ -247,9 +247,12 @@ def check_C13(ctx):
         # range lists are in a prefix relation (both rule orders)
         if len(orc) >= 2:
             cut = orc[len(orc) // 2][0]
-            r1 = ('rule', {'re': ('cat', ('char', 0x31), ('builtin', nm)), 'ctx': None, 'kind': 'simple:1'})
-            r2 = ('rule', {'re': ('cat', ('char', 0x32), ('diff', ('builtin', nm), ('set', [(cut, 0x10FFFF)]))),
-                           'ctx': None, 'kind': 'simple:2'})
+            # (an optional tail keeps the state after the class alive, so that the ranges lead to a real state
+            #  and are compiled into a search table rather than into accepting arms)
+            r1 = ('rule', {'re': ('cat', ('cat', ('char', 0x31), ('builtin', nm)), ('opt', ('char', 0x7f))),
+                           'ctx': None, 'kind': 'simple:1'})
+            r2 = ('rule', {'re': ('cat', ('cat', ('char', 0x32), ('diff', ('builtin', nm), ('set', [(cut, 0x10FFFF)]))),
+                                  ('opt', ('char', 0x7f))), 'ctx': None, 'kind': 'simple:2'})
             r0 = ('rule', {'re': ('any',), 'ctx': None, 'kind': 'simple:0'})
             chp = [c for c in (pts[:400] if ctx.tier == "quick" else pts[::71]) if c not in (0x31, 0x32)]
             tail = [c for c in pts if c >= cut][:200]
